@@ -9,6 +9,7 @@ import Gk.Basic
 import Gk.Query
 import Gk.Repo
 import Gk.Proofs.Find
+import Gk.Proofs.ByCreated
 namespace Gk
 
 /-! ## 1. The loop -/
@@ -296,12 +297,29 @@ example : ¬ MatchesDoc exQuery
 
 theorem C11_find_spec (r : Repo) (now : Time) (q : Query) (off lim : Int) (h : 0 ≤ off) :
     (Repo.step {} r now (.find q off lim)).2 =
-      .tasks (takeLim lim ((r.tasks.filter (fun t => decide (MatchesDoc q t))).drop off.toNat)) := by
+      .tasks (takeLim lim (((byCreated r.tasks).filter (fun t => decide (MatchesDoc q t))).drop off.toNat)) := by
   have hp : (fun t => decide (MatchesDoc q t)) = (q.normalize true).matches :=
     funext (C11_match_spec_bool q)
   rw [hp]
-  show Out.tasks (findLoop (q.normalize true).matches r.tasks off lim) = _
+  show Out.tasks (findLoop (q.normalize true).matches (byCreated r.tasks) off lim) = _
   rw [C11_loop _ _ _ _ h]
+
+/-- "oldest-created first": the list `Find` windows is the stored tasks sorted by creation time -
+a permutation of the store, non-decreasing in `created_at`, tasks of one creation time in insertion
+order; under a clock that never stepped back it is the insertion order itself. -/
+theorem C11_oldest_first (ts : List Task) :
+    (byCreated ts).Perm ts ∧ (byCreated ts).Pairwise (fun a b => a.createdAt ≤ b.createdAt) ∧
+    (∀ c : Time, (byCreated ts).filter (fun x => x.createdAt == c) = ts.filter (fun x => x.createdAt == c)) ∧
+    (ts.Pairwise (fun a b => a.createdAt ≤ b.createdAt) → byCreated ts = ts) :=
+  ⟨byCreated_perm ts, byCreated_sorted ts, byCreated_stable ts, byCreated_of_sorted ts⟩
+
+/-- Non-vacuity / the situation of defect D20: the clock stepped back between two additions; the task
+added later but created earlier is listed first. -/
+example :
+    let a : Task := { Task.blank "a" 5000000 with workId := "w", scheduledAt := 9000000 }
+    let b : Task := { Task.blank "b" 2000000 with workId := "w", scheduledAt := 9000000 }
+    (byCreated [a, b]).map (·.id) = ["b", "a"] ∧
+    ((Repo.step {} ⟨[a, b]⟩ 0 (.find {} 0 1)).2 = .tasks [b]) := by decide
 
 /-- `Find` does not change the repository. -/
 theorem C11_find_readonly (fl : Flags) (r : Repo) (now : Time) (q : Query) (off lim : Int) :
